@@ -33,6 +33,8 @@ type trace struct {
 	mu    sync.Mutex
 	log   []Event
 	recov int
+	// attributes set to nil, per Request object: Attribute() cannot tell "never set" from "set to nil"
+	nilSet map[*restful.Request]map[string]bool
 }
 
 func traceOf(r *http.Request) *trace {
@@ -82,11 +84,18 @@ func logStage(req *restful.Request, hr *http.Request, w http.ResponseWriter, sta
 	if t == nil {
 		return
 	}
-	ev := Event{Stage: stage, Post: post, Wrappers: wrappersOf(w)}
+	ev := Event{Stage: stage, Post: post, Wrappers: wrappersOf(w), Mw: hr.Header.Get(mwHeader)}
 	if req != nil {
 		for _, k := range attrKeys {
 			if v, ok := req.Attribute(k).(string); ok {
 				ev.Attrs = append(ev.Attrs, [2]string{k, v})
+			} else if req.Attribute(k) == nil {
+				t.mu.Lock()
+				withdrawn := t.nilSet[req][k]
+				t.mu.Unlock()
+				if withdrawn {
+					ev.Attrs = append(ev.Attrs, [2]string{k, ""}) // SetAttribute(k, nil): the model's (k, "")
+				}
 			}
 		}
 		ps := req.PathParameters()
@@ -128,8 +137,34 @@ func runActs(as []Act, req *restful.Request, w http.ResponseWriter) {
 		case "ah":
 			w.Header().Add(a.B, a.V)
 		case "sa":
-			if req != nil {
+			if req != nil && a.V == "" {
+				// withdraw the attribute
+				req.SetAttribute(a.B, nil)
+				if t := traceOf(req.Request); t != nil {
+					t.mu.Lock()
+					if t.nilSet == nil {
+						t.nilSet = map[*restful.Request]map[string]bool{}
+					}
+					if t.nilSet[req] == nil {
+						t.nilSet[req] = map[string]bool{}
+					}
+					t.nilSet[req][a.B] = true
+					t.mu.Unlock()
+				}
+			} else if req != nil {
 				req.SetAttribute(a.B, a.V)
+				if t := traceOf(req.Request); t != nil {
+					t.mu.Lock()
+					delete(t.nilSet[req], a.B)
+					t.mu.Unlock()
+				}
+			}
+		case "we":
+			if r, ok := w.(*restful.Response); ok {
+				r.WriteErrorString(a.N, a.B)
+			} else {
+				w.WriteHeader(a.N)
+				w.Write([]byte(a.B))
 			}
 		case "panic":
 			panic(panicValue(a.B))
@@ -188,7 +223,9 @@ func mkFilter(f Filter, stage string) restful.FilterFunction {
 				runActs(f.Pre, nil, rw)
 				// a derived request, as real middlewares do (r.WithContext): the adapter must carry
 				// attributes and parameters over to it
-				next.ServeHTTP(&tagWriter{inner: rw, id: f.ID}, r.WithContext(context.WithValue(r.Context(), mwKey{}, f.ID)))
+				r2 := r.Clone(context.WithValue(r.Context(), mwKey{}, f.ID))
+				r2.Header.Set(mwHeader, strconv.Itoa(f.ID)) // more than the context differs (cf. http.StripPrefix, a Clone with a header)
+				next.ServeHTTP(&tagWriter{inner: rw, id: f.ID}, r2)
 				logStage(req, r, rw, stage, true)
 				runActs(f.Post, nil, rw)
 			})
@@ -247,6 +284,9 @@ func (g *Gate) Wait() {
 	case <-time.After(150 * time.Millisecond): // safety net only: the count covers the requests that get here
 	}
 }
+
+// mwHeader is set by every adapted middleware on the request it hands on.
+const mwHeader = "X-Verif-Mw"
 
 type mwReqKey struct{}
 type gateKey struct{}
@@ -582,11 +622,12 @@ func serveImpl(c *restful.Container, cfg *Cfg, r SReq, led *Ledger, sequential b
 	if res.Coded {
 		var rd io.Reader
 		var err error
+		br := bytes.NewReader(raw)
 		switch res.CE {
 		case "gzip":
-			rd, err = gzip.NewReader(bytes.NewReader(raw))
+			rd, err = gzip.NewReader(br)
 		case "deflate":
-			rd, err = zlib.NewReader(bytes.NewReader(raw))
+			rd, err = zlib.NewReader(br)
 		default:
 			err = fmt.Errorf("compressor acquired but Content-Encoding is %q", res.CE)
 		}
@@ -595,6 +636,14 @@ func serveImpl(c *restful.Container, cfg *Cfg, r SReq, led *Ledger, sequential b
 		} else {
 			dec, err := io.ReadAll(rd)
 			res.Body, res.Complete = string(dec), err == nil
+			if err == nil && res.CE == "deflate" {
+				// "the complete body": nothing may follow the zlib stream (gzip's multi-member reader
+				// reports trailing bytes by itself); bytes.Reader is a ByteReader, so zlib read exactly
+				// its stream and what is left in br is what came after it
+				if br.Len() != 0 {
+					res.Complete = false
+				}
+			}
 		}
 	}
 	// "complete" as a client sees it: a declared Content-Length that differs from the number of
